@@ -442,6 +442,12 @@ func (g *fastGenerator) fieldItem(field *protogen.Field, fieldname string, messa
 			g.P(`iNdEx += skippy`)
 			g.P(`}`)
 			g.P(`}`)
+			if field.Message.Fields[1].Desc.Kind() == protoreflect.MessageKind {
+				// an entry without a value holds an empty message, never a nil one
+				g.P(`if mapvalue == nil {`)
+				g.P(`mapvalue = &`, g.noStarOrSliceType(field.Message.Fields[1]), `{}`)
+				g.P(`}`)
+			}
 			g.P(`x.`, fieldname, `[mapkey] = mapvalue`)
 		} else if repeated {
 			g.P(`x.`, fieldname, ` = append(x.`, fieldname, `, &`, field.Message.GoIdent, `{})`)
@@ -673,7 +679,10 @@ func (g *fastGenerator) unmarshalMapField(varName string, field *protogen.Field)
 		g.P(`return `, protoifacePkg.Ident("UnmarshalOutput"), "{NoUnkeyedLiterals: input.NoUnkeyedLiterals, Flags: input.Flags},", g.Ident("io", `ErrUnexpectedEOF`))
 		g.P(`}`)
 		buf := `dAtA[iNdEx:postmsgIndex]`
+		// a value that occurs more than once inside one entry merges
+		g.P(`if `, varName, ` == nil {`)
 		g.P(varName, ` = &`, g.noStarOrSliceType(field), `{}`)
+		g.P(`}`)
 		g.decodeMessage(varName, buf, field.Message)
 		g.P(`iNdEx = postmsgIndex`)
 	case protoreflect.BytesKind:
